@@ -54,10 +54,27 @@ def confirm_timeouts(acc):
     return dropped
 
 
+def strided_layers(tasks):
+    def has(p):
+        if isinstance(p, dict):
+            return any((k == 'stride' and isinstance(v, int) and v > 1) or has(v) for k, v in p.items())
+        if isinstance(p, (list, tuple)):
+            return any(has(x) for x in p)
+        return False
+    return sum(1 for (_m, _n, params) in tasks if has(params))
+
+
 def run_check(pid, tier, seed):
     t0 = time.time()
     drv = load_driver(pid)
     spec = drv.plan(tier, seed)
+    strided = strided_layers(spec['tasks'])
+    if strided:
+        # "exhaustive" is claimed only when every layer of the run enumerates its space completely
+        spec['exhaustive'] = False
+        spec['explanation'] = ('every layer listed WITHOUT a stride in bounds enumerates its space completely; {} task(s) of this run walk an arithmetic progression '
+                               '(stride > 1, offset from VERIF_SEED) through a larger space and are complete only for that progression; every case was executed on the real code '
+                               'from the working tree and judged by the reference model').format(strided)
     acc = pool.run_tasks(spec['tasks'], deadline=spec.get('deadline', 900 if tier == 'quick' else 6 * 3600))
     if hasattr(drv, 'finish'):
         drv.finish(acc, spec)
